@@ -58,6 +58,8 @@ type Module struct {
 	// deferClosure: deferred function literals whose body is spliced at RunDefers
 	deferClosure map[*ssa.Defer]*ssa.Function
 	deferSite    map[*ssa.Function]*ssa.Defer
+	// NArith: calls of arithmetic helpers replaced by their expression
+	NArith int
 }
 
 func loadEnv() []string {
